@@ -61,7 +61,55 @@ fn delta_of(c: &str) -> f64 {
     }
 }
 
+fn render_maniaconv(sc: &Scenario) -> String {
+    let g = &sc.glob;
+    let (dv, dense) = (g.diff[1..2].parse::<u32>().unwrap_or(5), g.diff.ends_with("dense"));
+    let mut s = String::new();
+    let _ = writeln!(s, "osu file format v14\n\n[General]\nMode: 0\n\n[Difficulty]\nHPDrainRate:{dv}\nCircleSize:4\nOverallDifficulty:{dv}\nApproachRate:{}\nSliderMultiplier:1\nSliderTickRate:1\n", dv + 1);
+    let _ = writeln!(s, "[TimingPoints]\n0,500,4,2,0,100,1,0\n\n[HitObjects]");
+    let mut t = 0.0;
+    if dense {
+        for i in 0..30 {
+            let _ = writeln!(s, "{},192,{},1,0", 40 + (i * 97) % 430, i * 50);
+        }
+        t = 2000.0;
+    }
+    let mut end = t;
+    for (i, o) in sc.objs.iter().enumerate() {
+        if i > 0 {
+            t = end + match o.t.as_str() {
+                "d60" => 60.0,
+                "d115" => 115.0,
+                "d130" => 130.0,
+                "d200" => 200.0,
+                _ => 600.0,
+            };
+        }
+        let snd = if o.z == "n12" { 12 } else { 0 };
+        let x = 100 + 90 * (i % 4);
+        if o.k == "S" {
+            let spans: u32 = if i == 0 { o.t[2..].parse().unwrap_or(1) } else { 2 };
+            let span_ms = match o.p.as_str() {
+                "s80" => 80.0,
+                "s500" => 500.0,
+                _ => 300.0,
+            };
+            // velocity = 100 px per 500 ms beat (SliderMultiplier 1): length = span_ms / 5
+            let len = span_ms / 5.0;
+            let _ = writeln!(s, "{x},192,{t},2,{snd},L|{}:192,{spans},{len}", x as f64 + len);
+            end = t + spans as f64 * span_ms;
+        } else {
+            let _ = writeln!(s, "{x},100,{t},1,{snd}");
+            end = t;
+        }
+    }
+    s
+}
+
 pub fn render(sc: &Scenario) -> String {
+    if sc.domain == "maniaconv" {
+        return render_maniaconv(sc);
+    }
     let g = &sc.glob;
     let m = crate::absmap::mode_num(&sc.mode);
     let ver = if g.ver == "v5" { 5 } else { 14 };
@@ -299,12 +347,33 @@ fn run_map(sc: &Scenario, idx: usize, c09: bool, obs: &mut Obs) {
     }
     let _ = guarded(|| map.bpm()).map_err(|p| report("panic:bpm", p));
     let targets: Vec<GameMode> = if sc.mode == "osu" { vec![GameMode::Osu, GameMode::Taiko, GameMode::Catch, GameMode::Mania] } else { vec![map.mode] };
-    let rates: &[f64] = if adversarial { &[1.0, 0.01, 100.0] } else if c09 { &[1.0, 0.5, 2.0] } else { &[1.0, 1.5] };
-    let mods_list: &[u32] = if c09 { &[0, 16 | 8, 2 | 1024, 64, 256, 128] } else { &[0, 16 | 64] };
-    let overrides: &[Option<f32>] = if c09 { &[None, Some(0.0), Some(11.0)] } else { &[None] };
-    for (ti, t) in targets.iter().enumerate() {
+    let maniaconv = sc.domain == "maniaconv";
+    let rates: &[f64] = if maniaconv { &[1.0] } else if adversarial { &[1.0, 0.01, 100.0] } else if c09 { &[1.0, 0.5, 2.0] } else { &[1.0, 1.5] };
+    let mods_list: &[u32] = if maniaconv { &[0] } else if c09 { &[0, 16 | 8, 2 | 1024, 64, 256, 128] } else { &[0, 16 | 64] };
+    // C05: settings at the ends of the documented ranges ([-20, 20]); C09: the range reachable in the game
+    let overrides: &[Option<f32>] = if maniaconv { &[None] } else if c09 { &[None, Some(0.0), Some(11.0)] } else { &[None, Some(-20.0), Some(20.0)] };
+    // mania conversions also under key mods (the pattern generator depends on the key count)
+    let mut conversions: Vec<(GameMode, rosu_pp::GameMods)> = Vec::new();
+    if sc.domain == "maniaconv" {
+        for k in 0u32..=10 {
+            let cfg = if k == 0 { crate::settings::Cfg::default() } else { crate::settings::Cfg::default().with_acronyms(&format!("{k}K")) };
+            conversions.push((GameMode::Mania, cfg.game_mods()));
+        }
+    }
+    for t in &targets {
+        if sc.domain == "maniaconv" {
+            break;
+        }
+        conversions.push((*t, 0u32.into()));
+        if *t == GameMode::Mania && sc.mode == "osu" && !c09 {
+            for k in [1u32, 4, 8, 10] {
+                conversions.push((*t, crate::settings::Cfg::default().with_acronyms(&format!("{k}K")).game_mods()));
+            }
+        }
+    }
+    for (ti, (t, conv_mods)) in conversions.iter().enumerate() {
         obs.calls += 1;
-        let conv = match guarded(|| map.convert_ref(*t, &0u32.into()).map(|c| c.into_owned())) {
+        let conv = match guarded(|| map.convert_ref(*t, conv_mods).map(|c| c.into_owned())) {
             Ok(Ok(c)) => c,
             Ok(Err(_)) => continue,
             Err(p) => {
@@ -321,7 +390,8 @@ fn run_map(sc: &Scenario, idx: usize, c09: bool, obs: &mut Obs) {
                 for ov in overrides {
                     let mut d = Difficulty::new().mods(mods).clock_rate(rate);
                     if let Some(x) = ov {
-                        d = d.ar(*x, false).cs(*x, false).od(*x, false).hp(*x, false);
+                        let wm = !c09 && (idx + ri + mi) % 2 == 1;
+                        d = d.ar(*x, wm).cs(*x, wm).od(*x, wm).hp(*x, wm);
                     }
                     let label = format!("{t:?} rate {rate} mods {mods} override {ov:?}");
                     obs.calls += 4;
@@ -389,7 +459,7 @@ fn run_map(sc: &Scenario, idx: usize, c09: bool, obs: &mut Obs) {
                                             report("class:performance", format!("{label} state {sname}: {name} = {x} ({c})"));
                                         }
                                     }
-                                    let hits = used.as_ref().map_or(1, |u| u.n300 + u.n100 + u.n50 + u.n_geki + u.n_katu);
+                                    let hits = used.as_ref().map_or(1, |u| u.n300 + u.n100 + u.n50 + u.n_geki + u.n_katu + u.slider_end_hits + u.osu_large_tick_hits + u.osu_small_tick_hits);
                                     if hits == 0 && pa.pp() != 0.0 {
                                         report("class:zero_hits_pp", format!("{label} state {sname}: pp = {}", pa.pp()));
                                     }
@@ -453,5 +523,217 @@ pub fn main(args: &[String]) -> i32 {
         "records": obs.problems.iter().take(200).collect::<Vec<_>>()});
     std::fs::write(&args[1], serde_json::to_string(&out).unwrap()).unwrap();
     println!("corner-replay: maps={} from={} calls={} problems={}", scenarios.len(), from, obs.calls, obs.problems.len());
+    0
+}
+
+// ---------------------------------------------------------------------------
+// C05, second input family: structured-random maps and mutated fixtures (the property quantifies over
+// "structured-random, mutated real maps, line/byte-level corruptions").  Same calls, same watchdog protocol.
+
+use rand::{rngs::StdRng, Rng, SeedableRng};
+
+fn random_text(rng: &mut StdRng) -> String {
+    let mode = rng.gen_range(0..4);
+    let ver = [5, 7, 8, 14][rng.gen_range(0..4)];
+    let d = |rng: &mut StdRng| [0.0, 2.0, 4.0, 5.0, 6.5, 8.0, 9.0, 10.0][rng.gen_range(0..8)];
+    let mut s = String::new();
+    let _ = writeln!(s, "osu file format v{ver}\n\n[General]\nMode: {mode}\nStackLeniency: {}\n", [0.0, 0.7, 1.0][rng.gen_range(0..3)]);
+    let _ = writeln!(s, "[Difficulty]\nHPDrainRate:{}\nCircleSize:{}\nOverallDifficulty:{}\nApproachRate:{}\nSliderMultiplier:{}\nSliderTickRate:{}\n",
+        d(rng), d(rng), d(rng), d(rng), [0.4, 1.0, 1.4, 2.0, 3.6][rng.gen_range(0..5)], [0.5, 1.0, 2.0, 4.0][rng.gen_range(0..4)]);
+    let n = rng.gen_range(1..60);
+    let mut t = rng.gen_range(-2000..5000) as f64;
+    let mut times = Vec::new();
+    let mut objs = String::new();
+    for i in 0..n {
+        t += [0.0, 1.0, 50.0, 100.0, 115.0, 125.0, 150.0, 250.0, 500.0, 1000.0, 5000.0][rng.gen_range(0..11)];
+        times.push(t);
+        let x = rng.gen_range(0..513);
+        let y = rng.gen_range(0..385);
+        let snd = rng.gen_range(0..16);
+        match rng.gen_range(0..10) {
+            0..=4 => {
+                let _ = writeln!(objs, "{x},{y},{t},{},{snd}", if i % 7 == 0 { 5 } else { 1 });
+            }
+            5..=7 => {
+                let slides = [1, 1, 2, 3, 5, 9][rng.gen_range(0..6)];
+                let len = [10.0, 35.0, 70.0, 100.0, 140.0, 280.0, 600.0][rng.gen_range(0..7)];
+                let kind = ["L", "B", "P", "C"][rng.gen_range(0..4)];
+                let pts = (0..rng.gen_range(1..4)).map(|_| format!("{}:{}", rng.gen_range(0..513), rng.gen_range(0..385))).collect::<Vec<_>>().join("|");
+                let _ = writeln!(objs, "{x},{y},{t},2,{snd},{kind}|{pts},{slides},{len}");
+                t += rng.gen_range(0..3) as f64 * 250.0;
+            }
+            8 => {
+                let dur = [0.0, 101.0, 500.0, 2000.0, 10000.0][rng.gen_range(0..5)];
+                let _ = writeln!(objs, "256,192,{t},12,{snd},{}", t + dur);
+                t += dur;
+            }
+            _ => {
+                let dur = [0.0, 50.0, 300.0, 1900.0][rng.gen_range(0..4)];
+                let _ = writeln!(objs, "{x},{y},{t},128,{snd},{}:0:0:0:0:", t + dur);
+            }
+        }
+    }
+    let _ = writeln!(s, "[TimingPoints]\n{},{},4,2,0,100,1,0", times[0].min(0.0) - 100.0, [200.0, 300.0, 500.0, 1000.0][rng.gen_range(0..4)]);
+    for _ in 0..rng.gen_range(0..5) {
+        let tt = times[rng.gen_range(0..times.len())];
+        if rng.gen_bool(0.6) {
+            let _ = writeln!(s, "{tt},{},4,2,0,100,0,{}", [-25.0, -50.0, -100.0, -200.0, -1000.0][rng.gen_range(0..5)], rng.gen_range(0..2));
+        } else {
+            let _ = writeln!(s, "{tt},{},4,2,0,100,1,{}", [150.0, 400.0, 750.0][rng.gen_range(0..3)], rng.gen_range(0..2));
+        }
+    }
+    let _ = writeln!(s, "\n[HitObjects]\n{objs}");
+    s
+}
+
+fn run_text(text: &str, idx: usize, rng: &mut StdRng, obs: &mut Obs) {
+    let mut report = |what: &str, detail: String| {
+        obs.problems.push(json!({"what": what, "detail": detail, "scenario_index": idx, "scenario": {"family": "random"}, "osu_text": text}));
+    };
+    obs.calls += 1;
+    let map = match guarded(|| Beatmap::from_bytes(text.as_bytes())) {
+        Ok(Ok(m)) => m,
+        Ok(Err(_)) => return,
+        Err(p) => {
+            report("panic:decode", p);
+            return;
+        }
+    };
+    if map.check_suspicion().is_err() || !bounded_work(&map) {
+        obs.skipped += 1;
+        return;
+    }
+    let _ = guarded(|| map.bpm()).map_err(|p| report("panic:bpm", p));
+    let native_osu = map.mode == GameMode::Osu;
+    let targets: Vec<GameMode> = if native_osu { vec![GameMode::Osu, GameMode::Taiko, GameMode::Catch, GameMode::Mania] } else { vec![map.mode] };
+    for t in targets {
+        let keys: Vec<u32> = if t == GameMode::Mania && native_osu { vec![0, 1, 2, 3, 4, 5, 6, 7, 8, 9, 10] } else { vec![0] };
+        for k in keys {
+            let cfg = if k == 0 { crate::settings::Cfg::default() } else { crate::settings::Cfg::default().with_acronyms(&format!("{k}K")) };
+            let mods = cfg.game_mods();
+            obs.calls += 1;
+            let conv = match guarded(|| map.convert_ref(t, &mods).map(|c| c.into_owned())) {
+                Ok(Ok(c)) => c,
+                Ok(Err(_)) => continue,
+                Err(p) => {
+                    report(&format!("panic:convert:{t:?}:{k}K"), p);
+                    continue;
+                }
+            };
+            // settings inside the documented ranges, drawn per map
+            let rate = [0.01, 0.5, 0.75, 1.0, 1.5, 2.0, 100.0][rng.gen_range(0..7)];
+            let bits = [0u32, 16, 2, 64, 256, 8 | 1024, 128, 4, 8192, 16 | 64 | 8][rng.gen_range(0..10)];
+            let mut d = Difficulty::new().mods(bits).clock_rate(rate);
+            if k != 0 {
+                d = Difficulty::new().mods(mods.clone()).clock_rate(rate);
+            }
+            if rng.gen_bool(0.4) {
+                let x = [-20.0f32, -5.0, 0.0, 5.5, 11.0, 12.5, 20.0][rng.gen_range(0..7)];
+                let wm = rng.gen_bool(0.5);
+                d = match rng.gen_range(0..5) {
+                    0 => d.ar(x, wm),
+                    1 => d.cs(x, wm),
+                    2 => d.od(x, wm),
+                    3 => d.hp(x, wm),
+                    _ => d.ar(x, wm).cs(x, !wm).od(-x, wm).hp(x, wm),
+                };
+            }
+            if rng.gen_bool(0.3) {
+                d = d.passed_objects(rng.gen_range(0..(conv.hit_objects.len() as u32 + 3)));
+            }
+            let label = format!("{t:?} {k}K rate {rate} mods {bits}");
+            obs.calls += 4;
+            let attrs = match guarded(|| d.calculate(&conv)) {
+                Ok(a) => a,
+                Err(p) => {
+                    report("panic:difficulty", format!("{label}: {p}"));
+                    continue;
+                }
+            };
+            let _ = guarded(|| d.strains(&conv)).map_err(|p| report("panic:strains", format!("{label}: {p}")));
+            let _ = guarded(|| conv.attributes().difficulty(&d).build()).map_err(|p| report("panic:attributes", format!("{label}: {p}")));
+            let g = guarded(|| {
+                let mut g = GradualDifficulty::new(d.clone(), &conv);
+                let mut n = 0;
+                while g.nth(n % 3).is_some() {
+                    let _ = g.len();
+                    n += 1;
+                    if n > 3000 {
+                        break;
+                    }
+                }
+                let _ = g.len();
+            });
+            if let Err(p) = g {
+                report("panic:gradual_difficulty", format!("{label}: {p}"));
+            }
+            for (sname, st) in states_for(&attrs, true) {
+                obs.calls += 1;
+                if let Err(p) = guarded(|| Performance::new(attrs.clone()).difficulty(d.clone()).lazer(idx % 2 == 0).state(st.clone()).calculate()) {
+                    report("panic:performance", format!("{label} state {sname}: {p}"));
+                }
+            }
+            obs.calls += 2;
+            if let Err(p) = guarded(|| Performance::new(&conv).difficulty(d.clone()).accuracy(rng.gen_range(0..101) as f64).misses(rng.gen_range(0..5)).calculate()) {
+                report("panic:performance_accuracy", format!("{label}: {p}"));
+            }
+            if let Err(p) = guarded(|| {
+                let mut g = GradualPerformance::new(d.clone(), &conv);
+                let _ = g.nth(ScoreState::new(), 2);
+                let _ = g.last(ScoreState::new());
+                let _ = g.next(ScoreState::new());
+                g.len()
+            }) {
+                report("panic:gradual_performance", format!("{label}: {p}"));
+            }
+        }
+    }
+}
+
+/// `random-replay <n> <out.json> <progress-file> --from I --to J`  (map i is a function of VERIF_SEED and i)
+pub fn random_main(args: &[String]) -> i32 {
+    silence_panics();
+    let n: usize = args[0].parse().unwrap();
+    let from: usize = args.iter().position(|a| a == "--from").map(|i| args[i + 1].parse().unwrap()).unwrap_or(0);
+    let to: usize = args.iter().position(|a| a == "--to").map(|i| args[i + 1].parse().unwrap()).unwrap_or(n);
+    let seed: u64 = std::env::var("VERIF_SEED").ok().and_then(|s| s.parse().ok()).unwrap_or(0);
+    let fixtures: Vec<String> = ["2785319", "1028484", "2118524", "1638954"].iter().filter_map(|id| std::fs::read_to_string(format!("/repo/resources/{id}.osu")).ok()).collect();
+    let mut obs = Obs::default();
+    let mut progress = std::fs::OpenOptions::new().create(true).append(true).open(&args[2]).expect("progress file");
+    for i in from..to.min(n) {
+        let _ = writeln!(progress, "{i}");
+        let _ = progress.flush();
+        let mut rng = StdRng::seed_from_u64(seed.wrapping_mul(1_000_003).wrapping_add(i as u64));
+        let text = if i % 5 == 4 && !fixtures.is_empty() {
+            // a mutated window of a fixture: header + up to 150 object lines, a few numeric fields replaced
+            let f = &fixtures[i % fixtures.len()];
+            let ls: Vec<&str> = f.lines().collect();
+            let ho = ls.iter().position(|l| l.trim() == "[HitObjects]").unwrap_or(ls.len() - 1);
+            let start = ho + 1 + rng.gen_range(0..(ls.len() - ho - 1).max(1));
+            let mut keep: Vec<String> = ls[..=ho].iter().map(|s| s.to_string()).collect();
+            keep.extend(ls[start..(start + 150).min(ls.len())].iter().map(|s| s.to_string()));
+            for _ in 0..rng.gen_range(0..12) {
+                let a = rng.gen_range(0..keep.len());
+                let mut parts: Vec<String> = keep[a].split(',').map(String::from).collect();
+                if parts.len() > 3 {
+                    let k = rng.gen_range(0..parts.len());
+                    parts[k] = ["0", "1", "-1", "100", "512", "9", "1e5", "0.0001", "3"][rng.gen_range(0..9)].to_string();
+                    keep[a] = parts.join(",");
+                }
+            }
+            keep.join("\n")
+        } else {
+            random_text(&mut rng)
+        };
+        run_text(&text, i, &mut rng, &mut obs);
+        if obs.problems.len() > 2000 {
+            break;
+        }
+    }
+    let _ = writeln!(progress, "done");
+    let out = json!({"scenarios": n, "from": from, "calls": obs.calls, "skipped": obs.skipped, "problems": obs.problems.len(),
+        "records": obs.problems.iter().take(200).collect::<Vec<_>>()});
+    std::fs::write(&args[1], serde_json::to_string(&out).unwrap()).unwrap();
+    println!("random-replay: maps={}..{} calls={} problems={}", from, to.min(n), obs.calls, obs.problems.len());
     0
 }
